@@ -212,6 +212,23 @@ class World:
             if not has_vol:
                 del things["BlackScholes hedge"]
             from pfhedge.features import Barrier, ModuleOutput, get_feature
+            from pfhedge.instruments import EuropeanForwardStartOption, VarianceSwap
+            from pfhedge.nn import Naked
+            # the other contracts on the same underlier, and the parameter-free built-in model
+            things["variance swap payoff"] = lambda: VarianceSwap(prim, maturity=1.0).payoff()
+            things["forward-start payoff"] = lambda: EuropeanForwardStartOption(prim, maturity=1.0, start=0.5).payoff()
+            things["Naked hedge"] = lambda: Hedger(Naked(), ["empty"]).compute_hedge(d)
+            things["Naked P&L"] = lambda: Hedger(Naked(), ["zeros"]).compute_pl(d)
+            # every registered feature on its own, all steps at once and at one step (a container of several features would
+            # hide a stray dtype behind torch.cat's promotion)
+            from pfhedge.features import list_feature_names
+            from pfhedge.features.features import Ones
+            for fname in list(list_feature_names()) + [Ones()]:
+                label = fname if isinstance(fname, str) else type(fname).__name__
+                if label in ("prev_hedge",) or (label in ("volatility", "variance") and not has_vol):
+                    continue
+                things[f"feature {label}.get(None)"] = lambda fname=fname: get_feature(fname).of(d).get(None)
+                things[f"feature {label}.get(0)"] = lambda fname=fname: get_feature(fname).of(d).get(0)
             things["barrier"] = lambda: Barrier(1.0).of(d).get(None)
             things["barrier(1)"] = lambda: Barrier(1.0, up=False).of(d).get(1)
             for name, fn in things.items():
